@@ -58,6 +58,10 @@ CopyAssign(c, d) == ex[c] /\ ex[d] /\ el' = [el EXCEPT ![c] = el[d]] /\ UNCHANGE
 MoveAssign(c, d) == ex[c] /\ ex[d] /\ el' = (IF c = d THEN el ELSE [el EXCEPT ![c] = el[d], ![d] = <<>>]) /\ UNCHANGED ex /\ Fix
 \* queries (state unchanged; answers from el)
 Query(c) == ex[c] /\ UNCHANGED avars
+\* an operation at the end of the sequence (push_back, emplace_back, growing resize, reserve) that ends with an exception - thrown by the
+\* constructor of the new element or by the allocator - has no effect (std::vector: strong guarantee; a fixed-capacity container cannot
+\* hold an element that was never constructed either)
+Failed(c) == ex[c] /\ UNCHANGED avars
 \* element comparison: ordinary values compare as numbers; the codes 1000 / 1001 / 1002 stand for +0.0 / -0.0 / NaN of a
 \* floating element type (equal zeros, a NaN equal to nothing and ordered with nothing), as std::vector compares them
 IsNaNv(v) == v = 1002
